@@ -26,7 +26,7 @@ func probeVariant(h *hctx) cfgFlags {
 	cid := propeller.CommitteeID{1, 2, 3}
 	units, err := propeller.CreatePropellerUnits(pub.priv, &cid, propeller.Nonce(5), []byte("probe"), 1, 1)
 	if err != nil || len(units) != 2 {
-		h.res.Note("probe: CreatePropellerUnits failed: %v", err)
+		h.res.Fatalf("probe: CreatePropellerUnits failed: %v", err)
 		c.ValidatorLeafProto = true
 		return c
 	}
@@ -43,7 +43,7 @@ func probeVariant(h *hctx) cfgFlags {
 	case proRoot:
 		c.ShardingLeafProto = true
 	default:
-		h.res.Note("probe: the root of created units is neither over raw shards nor over MarshalProto leaves")
+		h.res.Fatalf("probe: the root of created units is neither over raw shards nor over MarshalProto leaves")
 	}
 	// (a) ConstructMessageFromUnits without shard 0
 	_, panicked, _ = lib.Try(func() error {
@@ -77,7 +77,7 @@ func probeVariant(h *hctx) cfgFlags {
 		c.ValidatorLeafProto = false
 	default:
 		c.ValidatorLeafProto = true
-		h.res.Note("probe: UnitValidator accepts neither leaf dialect of a well-formed unit")
+		h.res.Fatalf("probe: UnitValidator accepts neither leaf dialect of a well-formed unit")
 	}
 	return c
 }
